@@ -182,12 +182,12 @@ func genIntent(r *R, c Cfg) Intent {
 		in.UA = r.Range(1, 3)
 	}
 	// literals of the tree under test (dict.go): a host, a port, a method, a header name
-	if len(dict.any) > 0 && r.P(0.12) {
+	if len(dict.any.all) > 0 && r.P(0.12) {
 		o := in.Origin
-		if h, ok := dictStr(r, dict.hosts, 0.4); ok {
+		if h, ok := dict.hosts.pick(r, 0.4); ok {
 			o = pick(r, []string{"https://", "http://"}) + h
 		}
-		if n, ok := dictInt(r, dict.ports, 0.5); ok {
+		if n, ok := dict.ports.pick(r, 0.5); ok {
 			if pp, good := splitPattern(o); good && pp.Host != "" {
 				o = fmt.Sprintf("%s://%s:%d", pp.Scheme, pp.Host, n)
 			}
@@ -195,14 +195,14 @@ func genIntent(r *R, c Cfg) Intent {
 		if browserSerialisable(o) {
 			in.Origin = o
 		}
-		if t, ok := dictStr(r, dict.tokens, 0.3); ok && strings.Trim(t, "ABCDEFGHIJKLMNOPQRSTUVWXYZabcdefghijklmnopqrstuvwxyz0123456789") == "" {
+		if t, ok := dict.tokens.pick(r, 0.3); ok && strings.Trim(t, "ABCDEFGHIJKLMNOPQRSTUVWXYZabcdefghijklmnopqrstuvwxyz0123456789") == "" {
 			switch strings.ToUpper(t) {
 			case "CONNECT", "TRACE", "TRACK": // fetch() throws on forbidden methods: not an intent a page can have
 			default:
 				in.Method = t
 			}
 		}
-		if t, ok := dictStr(r, dict.tokens, 0.4); ok {
+		if t, ok := dict.tokens.pick(r, 0.4); ok {
 			if t = strings.ToLower(t); strings.Trim(t, "abcdefghijklmnopqrstuvwxyz0123456789-") == "" && !forbiddenRequestHeader(t) {
 				in.Headers = append(in.Headers, t)
 			}
@@ -537,6 +537,7 @@ func browserFetch(srv *mwServer, in Intent, alts []Alteration, c *Ctx, trace *[]
 		}
 		if ua := uaHeaders(in, true); ua != nil {
 			q = q.withNoise(ua)
+			q.Shape = []int{0, 2, 3, 1}[in.UA%4] // HTTP/2 over TLS, a path with a query, an HTTP/1.0 client
 			c.hit("browser_bystander_headers")
 		}
 		resp := srv.do(q)
@@ -582,6 +583,7 @@ func browserFetch(srv *mwServer, in Intent, alts []Alteration, c *Ctx, trace *[]
 		q.H = append(q.H, HV{canonical(n), []string{"v"}})
 	}
 	q = q.withNoise(uaHeaders(in, false))
+	q.Shape = []int{0, 2, 3, 1}[in.UA%4]
 	resp := srv.do(q)
 	*trace = append(*trace, fmt.Sprintf("actual %s -> %s", q, resp))
 	if resp.Panic != "" {
